@@ -291,6 +291,7 @@ Init == \E k \in Kinds \cup {PI}, st \in Styles, e \in Entries, pos \in {"op", "
              /\ (pos = "op2" => sh.shape \in {"direct", "chain3", "child", "childlocal", "wholefile", "selfcycle", "backref"} /\ e \in {"file_abs", "file_rel"})
              /\ (Tier = "quick" => QuickSlice(sh, st, e, pos))
              /\ (e = "uri_remote" => st \in RelStyles)
+             /\ (sh.shape = "samepath_twohosts" => e # "file_rel_default")      \* the library's default reader cannot be made to serve a second host
              /\ (k = "securitySchemes" => pos = "comp")        \* security schemes are referenced by name, not by $ref
              /\ case = [kind |-> k, style |-> st, entry |-> e, pos |-> pos, shape |-> sh.shape,
                         site |-> (IF "site" \in DOMAIN sh THEN sh.site ELSE "-"), u |-> sh.u, allow |-> al]
